@@ -426,41 +426,46 @@ class C20(Property):
             meta.append((ops, len(ops) - 1))
             return True
 
-        ok = True
-        with_succ = {i for i, _ in case["edges"]}
-        for i in sorted(toks):
-            if not ok:
-                break
-            if i not in with_succ:
-                m.add(info[i])
-                ref.add(i)
-                ok = sync(("add", i, None), "add")
-            for a, b in case["edges"]:
-                if a == i and ok:
-                    m.add(info[a], info[b])
-                    ref.add(a, b)
-                    ok = sync(("add", a, b), "add")
-        nid = max(toks) + 1
-        for r1, r2, av, then_root in case["steps"]:
-            live = sorted(m.token_instances)
-            if not ok or not live:
-                break
-            t = live[int(r2 * len(live))]
-            if r1 < 0.5:
-                m.move_token_to_root(t)
-                ref.promote(t)
-                ok = sync(("prom", t), "move_token_to_root")
-            else:
-                port = next(pp for pp, ts in m.port_tokens.items() if t in ts)
-                new = _mk_token(nid, m.token_instances[t].tag)
-                nid += 1
-                m.replace_token(port, new, av)
-                ref.replace(t, new.persistent_id)
-                ok = sync(("rep", t, new.persistent_id), "replace_token")
-                if ok and then_root:
-                    m.move_token_to_root(new.persistent_id)
-                    ref.promote(new.persistent_id)
-                    ok = sync(("prom", new.persistent_id), "move_token_to_root")
+        try:
+            ok = True
+            with_succ = {i for i, _ in case["edges"]}
+            for i in sorted(toks):
+                if not ok:
+                    break
+                if i not in with_succ:
+                    m.add(info[i])
+                    ref.add(i)
+                    ok = sync(("add", i, None), "add")
+                for a, b in case["edges"]:
+                    if a == i and ok:
+                        m.add(info[a], info[b])
+                        ref.add(a, b)
+                        ok = sync(("add", a, b), "add")
+            nid = max(toks) + 1
+            for r1, r2, av, then_root in case["steps"]:
+                live = sorted(m.token_instances)
+                if not ok or not live:
+                    break
+                t = live[int(r2 * len(live))]
+                if r1 < 0.5:
+                    m.move_token_to_root(t)
+                    ref.promote(t)
+                    ok = sync(("prom", t), "move_token_to_root")
+                else:
+                    port = next(pp for pp, ts in m.port_tokens.items() if t in ts)
+                    new = _mk_token(nid, m.token_instances[t].tag)
+                    nid += 1
+                    m.replace_token(port, new, av)
+                    ref.replace(t, new.persistent_id)
+                    ok = sync(("rep", t, new.persistent_id), "replace_token")
+                    if ok and then_root:
+                        m.move_token_to_root(new.persistent_id)
+                        ref.promote(new.persistent_id)
+                        ok = sync(("prom", new.persistent_id), "move_token_to_root")
+        except (ru.FailureHandlingException, ValueError, KeyError) as e:
+            # these histories never ask for anything the mapper may refuse (tokens of a port have distinct tags, a replacement
+            # carries the tag of the token it replaces)
+            ctx.fail("mapper:raises", f"after {ops}: {type(e).__name__}: {e}", {"mapper": case})
         ctx.case({"mapper": {"tokens": len(toks), "edges": len(case["edges"]), "ops": [list(o) for o in ops[-6:]]}},
                  ("mapper", repr(case)), "mapper")
 
